@@ -157,6 +157,7 @@ class SubsetGroup(HubListener):
         for s in list(self.subsets):
             if s.data is data:
                 self.subsets.remove(s)
+                s.delete()
 
     def register_to_hub(self, hub):
 
